@@ -497,7 +497,10 @@ func (s *Server) writeData() error {
 }
 
 func (s *Server) writePoint(p edge.PointMessage) error {
-	strs, floats, ints, bools := s.fieldsToTypedMaps(p.Fields())
+	strs, floats, ints, bools, err := s.fieldsToTypedMaps(p.Fields())
+	if err != nil {
+		return err
+	}
 	udfPoint := &agent.Point{
 		Time:            p.Time().UnixNano(),
 		Name:            p.Name(),
@@ -523,6 +526,7 @@ func (s *Server) fieldsToTypedMaps(fields models.Fields) (
 	floats map[string]float64,
 	ints map[string]int64,
 	bools map[string]bool,
+	err error,
 ) {
 	for k, v := range fields {
 		switch value := v.(type) {
@@ -547,7 +551,9 @@ func (s *Server) fieldsToTypedMaps(fields models.Fields) (
 			}
 			bools[k] = value
 		default:
-			panic("unsupported field value type")
+			// For example a duration, fail the UDF not the whole process.
+			err = fmt.Errorf("unsupported field value type %T for field %q", v, k)
+			return
 		}
 	}
 	return
@@ -590,7 +596,10 @@ func (s *Server) writeBeginBatch(begin edge.BeginBatchMessage) error {
 }
 
 func (s *Server) writeBatchPoint(group models.GroupID, bp edge.BatchPointMessage) error {
-	strs, floats, ints, bools := s.fieldsToTypedMaps(bp.Fields())
+	strs, floats, ints, bools, err := s.fieldsToTypedMaps(bp.Fields())
+	if err != nil {
+		return err
+	}
 	req := &agent.Request{
 		Message: &agent.Request_Point{
 			Point: &agent.Point{
